@@ -261,6 +261,12 @@ class PackageGenerator:
             + list(self._result_types_files.keys())
             + [f.name for f in self.files_to_include]
         )
+        if self.enable_custom_operations:
+            file_names.extend(["custom_typing_fields.py", "custom_fields.py"])
+            if self.custom_query_generator:
+                file_names.append("custom_queries.py")
+            if self.custom_mutation_generator:
+                file_names.append("custom_mutations.py")
 
         if len(file_names) != len(set(file_names)):
             seen = set()
